@@ -85,9 +85,7 @@ def parseEvent (s : String) : Option Sim.Event :=
   | _ => none
 
 def simInit (cfg : Sim.Cfg) (pools : List (Bytes × Bool)) (table : List (Nat × Nat × Sim.RSet)) : Sim.State :=
-  let s0 : Sim.State := { pools := pools.map (fun p => { addr := p.1, isSlave := p.2 }), table := table }
-  -- every pool is connected once at start-up (RedisPreconnect)
-  (List.range pools.length).foldl (fun s p => (Sim.poolGet goStrs cfg s p).1) s0
+  Sim.init goStrs cfg pools table
 
 def showSim (s : Sim.State) : String :=
   let cs := s.clients.map (fun c => s!"{if c.opened then "o" else "x"}:{hexOrDash c.out}")
